@@ -196,7 +196,8 @@ def run(rep):
     use_repo_copy(probe)
     runs = []
     for lib in gen_impl.LIBS:
-        runs += [["mixed", lib, 2], ["lifecycle", lib, 0, "queued=3"], ["consume", lib, 2, "handles=2"]]
+        # clones used from tasks of the runtime's own executor: more clients in flight than worker threads (the harness runs 4)
+        runs += [["mixed", lib, 2, "clients=8", "calls=40"], ["mixed", lib, 0, "clients=6", "calls=30"], ["lifecycle", lib, 0, "queued=3"], ["consume", lib, 2, "handles=2"]]
         if rep.tier != "quick":
             runs += [["mixed", lib, 0], ["mixed", lib, 1], ["lifecycle", lib, 2, "queued=2"], ["consume", lib, 0, "handles=4"]]
     judge = {"mixed": lambda d: probe.oracle_mixed(d), "lifecycle": lambda d: probe.oracle_lifecycle(d), "consume": lambda d: probe.oracle_consume(d)}
